@@ -40,7 +40,15 @@ func VerifC08SweepMinedCredits() {
 	amR := keystore.VerifNewAddrManager(R, vPk(vP2WSH(hR)).StdEncodeAddress(), hR)
 	keystore.VerifAddManager(s.utxo.ksmgr, amR)
 	keystore.VerifAddAddressWithHash(s.utxo.ksmgr, verifWID, vPk(vP2WSH(hK)).StdEncodeAddress(), hK)
+	// the wallet in use is none, the kept one or the removed one: the sweep must not depend on it
+	switch rt.NondetLen(0, 2) {
+	case 0:
+		keystore.VerifSetCurrent(s.utxo.ksmgr, "")
+	case 1:
+		keystore.VerifSetCurrent(s.utxo.ksmgr, R)
+	}
 	t2ToK := rt.NondetBool()
+	t1Shared := rt.NondetBool() // T1's second output pays the kept wallet instead of a stranger
 	sameBlock := rt.NondetBool()
 	h2, w2 := hR, R
 	if t2ToK {
@@ -55,11 +63,18 @@ func VerifC08SweepMinedCredits() {
 		rt.Assume(!blockchain.IsCoinBaseTx(tx))
 		return tx
 	}
-	tx1, tx2 := mkTx(hR, hF), mkTx(h2)
+	h1b := hF
+	if t1Shared {
+		h1b = hK
+	}
+	tx1, tx2 := mkTx(hR, h1b), mkTx(h2)
 	T1 := &TxRecord{MsgTx: *tx1, Hash: vHash(), TxLoc: &wire.TxLoc{TxStart: 100, TxLen: 50}}
 	T2 := &TxRecord{MsgTx: *tx2, Hash: vHash(), TxLoc: &wire.TxLoc{TxStart: 200, TxLen: 50}}
 	rt.Assume(T1.Hash != T2.Hash)
 	T1.RelevantTxOut = []*RelevantMeta{{Index: 0, PkScript: vPk(vP2WSH(hR)), WalletId: R}}
+	if t1Shared {
+		T1.RelevantTxOut = append(T1.RelevantTxOut, &RelevantMeta{Index: 1, PkScript: vPk(vP2WSH(hK)), WalletId: verifWID})
+	}
 	T2.RelevantTxOut = []*RelevantMeta{{Index: 0, PkScript: vPk(vP2WSH(h2)), WalletId: w2}}
 	b1 := &BlockMeta{Height: rt.NondetU64(), Hash: vHash(), Loc: &database.BlockLoc{File: 1, Offset: 2, Length: 3}}
 	rt.Assume(b1.Height >= 1 && b1.Height < vMaxHeight-1)
@@ -84,7 +99,15 @@ func VerifC08SweepMinedCredits() {
 	}
 	k2 := keyCredit(&T2.Hash, 0, b2)
 	kept2 := append([]byte(nil), s.c.Lookup(k2)...)
-	rt.Assert(len(s.c.Ents) == 2 && len(kept2) == 45, "two-coins-recorded")
+	nCoins := 2
+	if t1Shared {
+		nCoins = 3
+	}
+	rt.Assert(len(s.c.Ents) == nCoins && len(kept2) == 45, "coins-recorded")
+	k1b := keyCredit(&T1.Hash, 1, b1)
+	kept1b := append([]byte(nil), s.c.Lookup(k1b)...)
+	_, t1before := existsTxRecord(s.t, &T1.Hash, b1)
+	t1before = append([]byte(nil), t1before...)
 	_, t2rec := existsTxRecord(s.t, &T2.Hash, b2)
 	t2rec = append([]byte(nil), t2rec...)
 	_, blk2, _ := existsBlockRecord(s.b, b2.Height)
@@ -103,7 +126,6 @@ func VerifC08SweepMinedCredits() {
 	}
 	rt.Assert(s.c.Lookup(keyCredit(&T1.Hash, 0, b1)) == nil, "removed-wallets-coin-erased")
 	_, t1rec := existsTxRecord(s.t, &T1.Hash, b1)
-	rt.Assert(t1rec == nil, "transaction-that-concerned-only-the-removed-wallet-erased")
 	inDeleted := func(h wire.Hash) bool {
 		for _, d := range deleted {
 			if *d == h {
@@ -112,6 +134,17 @@ func VerifC08SweepMinedCredits() {
 		}
 		return false
 	}
+	if t1Shared {
+		// a transaction that paid both wallets stays, with the kept wallet's coin
+		rt.Assert(bytes.Equal(t1rec, t1before) && !inDeleted(T1.Hash), "shared-transaction-record-kept")
+		rt.Assert(len(kept1b) == 45 && bytes.Equal(s.c.Lookup(k1b), kept1b) && s.u.Lookup(canonicalUnspentKey(verifWID, &T1.Hash, 1)) != nil, "kept-wallets-coin-of-the-shared-transaction-untouched")
+		_, blk1, _ := existsBlockRecord(s.b, b1.Height)
+		rt.Assert(blk1 != nil, "block-record-of-the-shared-transaction-kept")
+		rt.Reach("shared")
+		rt.Reach("end")
+		return
+	}
+	rt.Assert(t1rec == nil, "transaction-that-concerned-only-the-removed-wallet-erased")
 	rt.Assert(inDeleted(T1.Hash), "erased-transaction-reported")
 	if t2ToK {
 		rt.Assert(bytes.Equal(s.c.Lookup(k2), kept2), "kept-wallets-coin-untouched")
